@@ -40,6 +40,11 @@ class DL(ASTNode):
     nc: int = field(default=0, compare=False)
     ni: int = field(default=7, init=False)
 
+    def __post_init__(self) -> None:
+        ASTNode.__post_init__(self)   # the model validates itself AFTER the base initialisation: a rejected replace fails late
+        if self.nc == -1:
+            raise ValueError("rejected by the model")
+
 
 @dataclass(frozen=True)
 class DP(ASTNode):
@@ -50,12 +55,28 @@ class DP(ASTNode):
     def __len__(self) -> int:  # a container-like node: falsy in a boolean context while `items` is empty (it may still hold `one`)
         return len(self.items)
 
+    def __post_init__(self) -> None:
+        ASTNode.__post_init__(self)
+        if self.tag == -1:
+            raise ValueError("rejected by the model")
+
 
 U = Universe("c14", [
     C("DL", DL, [F("v", PROP, alphabet=(0, 1)), F("nc", PROP, alphabet=(0,), compare=False), F("ni", PROP, init=False, default=7)]),
     C("DP", DP, [F("one", OPT), F("items", VAR, maxlen=3), F("tag", PROP, alphabet=(0,))]),
 ])
-SETUPS = [(reg, twin) for reg in ("registered", "detached") for twin in ("none", "twin-before", "twin-after")]
+# "survived-rejected-replace": every node of the tree has been the receiver of a replace() that its model rejected late (the
+# new node already existed); the world must be indistinguishable from "registered"
+SETUPS = [(reg, twin) for reg in ("registered", "detached", "survived-rejected-replace") for twin in ("none", "twin-before", "twin-after")]
+
+
+def reject_everywhere(root):
+    for n in walk(root):
+        try:
+            n.replace(nc=-1) if isinstance(n, DL) else n.replace(tag=-1)
+        except ValueError:
+            continue
+        raise AssertionError("harness: the model did not reject the replace")
 
 
 def walk(n):
@@ -249,6 +270,9 @@ def check_world(rec, d, share, okind, setup, builder=None):
         keep.append(make({}))
     if reg == "detached":
         root.detach()
+    was_registered = [registered_as_itself(n) for n in walk(root)] if reg == "survived-rejected-replace" else None
+    if reg == "survived-rejected-replace":
+        reject_everywhere(root)
     case = {"tree": d, "share": None if not share else [[list(k), list(v)] for k, v in share.items()], "origins": okind, "setup": list(setup)}
     rec.count("states")
     rec.sample(case)
@@ -262,6 +286,8 @@ def check_world(rec, d, share, okind, setup, builder=None):
     def bad(kind, msg, **kw):
         rec.violation(f"C14|{kind}", dict(case, **kw), msg)
 
+    if was_registered is not None and [registered_as_itself(n) for n in walk(root)] != was_registered:
+        bad("rejected-replace|registry", "a replace() rejected by the node's model changed which nodes are registered (the ids later operations hand out depend on it)")
     # ---- duplicate -------------------------------------------------------------------------------------
     ev()
     orig_nodes = walk(root)
@@ -315,6 +341,8 @@ def check_world(rec, d, share, okind, setup, builder=None):
                     keep2.append(make({}))
                 if reg == "detached":
                     root2.detach()
+                if reg == "survived-rejected-replace":
+                    reject_everywhere(root2)
                 node = idx2[pos]
                 cname, kw2 = changes_for(node, fresh)[ci]
                 ev()
